@@ -2,6 +2,7 @@ package builder
 
 import (
 	"fmt"
+	"go/token"
 	"math/big"
 	"sort"
 
@@ -47,6 +48,10 @@ func (*Enum) Build(gen Generator, ctx *MethodContext, sourceID *xtype.JenID, sou
 	sourceTargetMapping := map[interface{}]enumMapping{}
 	for _, sourceName := range sourceEnum.SortedMembers() {
 		delete(definedKeys, sourceName)
+
+		if !enumMemberAccessible(ctx, source, sourceName) {
+			return nil, nil, NewError(fmt.Sprintf("Cannot use the unexported enum member %s of\n    %s\nfrom the output package.", sourceName, source.String))
+		}
 
 		targetName, ok := ctx.Conf.EnumMapping.Map[sourceName]
 		if !ok {
@@ -152,8 +157,17 @@ func caseAction(gen Generator, ctx *MethodContext, nameVar *jen.Statement, targe
 		return nil, NewError(fmt.Sprintf("Enum %s does not exist on\n    %s\n\nSee https://goverter.jmattheis.de/guide/enum", targetName, target.String))
 	}
 
+	if !enumMemberAccessible(ctx, target, targetName) {
+		return nil, NewError(fmt.Sprintf("Cannot use the unexported enum member %s of\n    %s\nfrom the output package.", targetName, target.String))
+	}
+
 	targetQual := jen.Qual(target.NamedType.Obj().Pkg().Path(), targetName)
 	return nameVar.Clone().Op("=").Add(targetQual), nil
+}
+
+// enumMemberAccessible reports whether the member can be named in the output package.
+func enumMemberAccessible(ctx *MethodContext, t *xtype.Type, member string) bool {
+	return token.IsExported(member) || t.NamedType.Obj().Pkg().Path() == ctx.OutputPackagePath
 }
 
 func executeTransformers(transformers []config.ConfiguredTransformer, source, target *xtype.Type, sourceEnum, targetEnum *xtype.Enum) (map[string]string, *Error) {
